@@ -12,6 +12,8 @@ LEVEL_NOTE = "necessary conditions only"
 
 
 def run(ctx):
+    from . import guardvocab
+    guardvocab.G0(ctx, effects={'track', 'release', 'join', 'acquire'})
     from . import races
     races.R1(ctx)
     races.R2(ctx)
